@@ -126,6 +126,42 @@ func vfC12Gen(rt *rapid.T) vfC12Case {
 			return op
 		}
 	})
+	if c.Regime == "A" && rapid.IntRange(0, 5).Draw(rt, "scripted") == 0 {
+		// scripted "wipe and reload" histories: fill, remove everything (or all but one), flush,
+		// reload about as many fresh vectors, flush again, search - rounds repeated
+		genVec := func() []float32 {
+			v := g.draw(rt, "sv")
+			if kind == Cosine && vfIsZero(v) {
+				v[0] = 1
+			}
+			return v
+		}
+		n1 := rapid.IntRange(1, 2*c.M).Draw(rt, "fill")
+		for r := 0; r < rapid.IntRange(1, 3).Draw(rt, "rounds"); r++ {
+			for j := 0; j < n1; j++ {
+				c.Ops = append(c.Ops, vfHOp{Op: "add", ID: vfGenFreshID(rt, used), Vec: genVec()})
+			}
+			c.Ops = append(c.Ops, vfHOp{Op: "search", Vec: genVec(), K: n1})
+			c.Ops = append(c.Ops, vfHOp{Op: "remove", Target: rapid.SampledFrom([]string{"all", "all", "all_but_one"}).Draw(rt, "wipe")})
+			if rapid.IntRange(0, 3).Draw(rt, "flush_after_wipe") > 0 {
+				c.Ops = append(c.Ops, vfHOp{Op: "flush"})
+			}
+			n2 := n1 + rapid.SampledFrom([]int{0, 0, 0, -1, 1}).Draw(rt, "reload_delta")
+			if n2 < 1 {
+				n2 = 1
+			}
+			if n2 > 2*c.M-1 {
+				n2 = 2*c.M - 1
+			}
+			for j := 0; j < n2; j++ {
+				c.Ops = append(c.Ops, vfHOp{Op: "add", ID: vfGenFreshID(rt, used), Vec: genVec()})
+			}
+			c.Ops = append(c.Ops, vfHOp{Op: "flush"}, vfHOp{Op: "search", Vec: genVec(), K: n2 + 1})
+			c.Ops = append(c.Ops, vfHOp{Op: "remove", Target: "all"}, vfHOp{Op: "flush"})
+			n1 = n2
+		}
+		return c
+	}
 	c.Ops = rapid.SliceOfN(opGen, minOps, maxOps).Draw(rt, "ops")
 	return c
 }
